@@ -416,8 +416,38 @@ def rule_lookup_delegation(ctx, prog, rule="R13"):
                 strip(src[3][0]) == ("field", ("param", 1, "self"), "edges") and strip(src[3][1])[:2] == ("param", 2) and clo[0] == "agg":
             cr = strip(prog.bodies[clo[2]].return_expr())
             ok = isinstance(cr, tuple) and cr[0] == "field" and cr[2] == "0" and strip(cr[1])[:2] == ("param", 2)
+    if not ok:
+        # `?` form, private helpers read in place:  let (left, _) = self.edges.indices_of(value)?;  Some(left)
+        from .rules_terms import unwrap_try as _ut
+        pv = prog.inlined_view() if hasattr(prog, "inlined_view") else prog
+        bi2 = pv.tracked(pv.find("histogram::bins::Bins::<A>::index_of"))
+        vals = [strip(bi2.def_expr(0, dd)) for dd in bi2.reaching_defs(0, bi2.exits()[0], "term")]
+        some_ok, n_some, rest_ok = True, 0, True
+
+        def is_lookup(e):
+            e = strip(e)
+            return isinstance(e, tuple) and e[0] == "call" and e[1] == "indices_of" and \
+                strip(e[3][0]) == ("field", ("param", 1, "self"), "edges") and strip(e[3][1])[:2] == ("param", 2)
+        for v in vals:
+            if isinstance(v, tuple) and v[0] == "agg" and v[1] == "std::option::Option" and v[2] == "Some":
+                n_some += 1
+                x = strip(v[3][0])
+                some_ok = some_ok and isinstance(x, tuple) and x[0] == "field" and str(x[2]) == "0" and is_lookup(_ut(x[1]))
+            elif isinstance(v, tuple) and v[0] == "call" and v[1] == "from_residual":
+                inner = strip(v[3][0])
+                for _ in range(4):
+                    if isinstance(inner, tuple) and inner[0] in ("field", "downcast"):
+                        inner = strip(inner[1])
+                if isinstance(inner, tuple) and inner[0] == "call" and inner[1] == "branch":
+                    inner = strip(inner[3][0])
+                rest_ok = rest_ok and is_lookup(inner)
+            else:
+                rest_ok = False
+        ok = n_some == 1 and some_ok and rest_ok
     ctx.ob(rule, "Bins::index_of/delegates", ok, bi.where(), "= self.edges.indices_of(value).map(|t| t.0)" if ok else
            "Bins::index_of is `%s`, not the left index of Edges::indices_of" % fmt(r)[:160], what="accessor does not use the lookup primitive")
+    if hasattr(prog, "inlined_view"):
+        prog = prog.inlined_view()          # a private `locate` in front of the lookup is read in place
     br = prog.find("histogram::bins::Bins::<A>::range_of")
     ok = False
     detail = "no Range{edges[left], edges[right]} built from Edges::indices_of"
